@@ -767,7 +767,9 @@ namespace BitSerializer::Convert::Utf
 				// Detecting UTF-32 (LE/BE)
 				if (i % sizeof(Utf32Le::char_type) == 0 && i + sizeof(Utf32Le::char_type) < inputString.size())
 				{
-					if (const uint32_t sym = Memory::NativeToLittleEndian(*reinterpret_cast<const uint32_t*>(&inputString[i])); sym != 0)
+					uint32_t rawSym;
+					std::memcpy(&rawSym, &inputString[i], sizeof rawSym);
+					if (const uint32_t sym = Memory::NativeToLittleEndian(rawSym); sym != 0)
 					{
 						if ((sym & 0b11111111111111110000000000000000) == 0)
 						{
@@ -784,7 +786,9 @@ namespace BitSerializer::Convert::Utf
 				// Detecting UTF-16 (LE/BE)
 				if (i % sizeof(Utf16Le::char_type) == 0 && i + sizeof(Utf16Le::char_type) < inputString.size())
 				{
-					if (const uint16_t sym = Memory::NativeToLittleEndian(*reinterpret_cast<const uint16_t*>(&inputString[i])); sym != 0)
+					uint16_t rawSym;
+					std::memcpy(&rawSym, &inputString[i], sizeof rawSym);
+					if (const uint16_t sym = Memory::NativeToLittleEndian(rawSym); sym != 0)
 					{
 						if ((sym & 0b1111111100000000) == 0)
 						{
